@@ -58,6 +58,13 @@ json generate(uint64_t seed, uint64_t idx, int tier)
 		json a = step(0, "addpath", 0);
 		a["dir"] = r.chance(1, 3) ? "~" : "/t";
 		steps.push_back(a);
+		if (r.chance(1, 2)) {
+			// a directory added LATER that holds files of the same names with other (unacceptable) contents: the first
+			// directory in the order they were added wins
+			json a2 = step(0, "addpath", 0);
+			a2["dir"] = "/alt";
+			steps.push_back(a2);
+		}
 	}
 	std::string route = r.chance(1, 3) ? "fp" : (r.chance(1, 2) ? "buf" : "file");
 	json params = {{"mode", t.mode}, {"depth", t.max_depth_reached}, {"route", route}, {"body_includes", params_body_includes}};
@@ -109,6 +116,43 @@ json generate(uint64_t seed, uint64_t idx, int tier)
 				p2["src"] = {{"kind", route}, {"chunks", chunks_to_json(bad)}};
 			p2["position"] = 1;
 			steps.push_back(p2);
+		}
+		// ... and a wrong token inside a single section of the includer that an included file has opened before: it is
+		// the includer's file name and line that must be reported
+		std::string single;
+		for (auto &o : schema["opts"])
+			if (o["t"] == "sec" && !(o.value("fl", 0) & (F_MULTI | F_TITLE)) && o["n"] != "root")
+				single = o["n"].get<std::string>();
+		if (!single.empty() && r.chance(1, 3)) {
+			Chunk opens;
+			opens.t = single + " {\n}\n";
+			t.files["/t/opens.conf"] = {opens};
+			std::vector<Chunk> bad = {include_chunk(r, target_name(t, "opens.conf"), "/t/opens.conf")};
+			Chunk open2, b, close2;
+			open2.t = "\n" + single + " {\n\n";
+			b.t = "= = =\n";
+			b.toks.push_back(Tok{0, 1, "o", "", 0, false, false});
+			b.faulty = true;
+			close2.t = "}\n";
+			bad.push_back(open2);
+			bad.push_back(b);
+			bad.push_back(close2);
+			json init3 = step(0, "init", 2);
+			init3["flags"] = flags;
+			steps.push_back(init3);
+			if (t.mode == 1) {
+				json a = step(0, "addpath", 2);
+				a["dir"] = "/t";
+				steps.push_back(a);
+			}
+			json p3 = step(0, "parse", 2);
+			if (route == "file") {
+				t.files["/t/topbad2.conf"] = bad;
+				p3["src"] = {{"kind", "file"}, {"path", t.mode == 1 ? "topbad2.conf" : (t.mode == 2 ? "~/topbad2.conf" : "/t/topbad2.conf")}};
+			} else
+				p3["src"] = {{"kind", route}, {"chunks", chunks_to_json(bad)}};
+			p3["position"] = 1;
+			steps.push_back(p3);
 		}
 	} else if (kind == 2) {
 		params["kind"] = "fault";
@@ -202,9 +246,12 @@ json generate(uint64_t seed, uint64_t idx, int tier)
 			if (f.value("kind", std::string()) == "file" && p.compare(0, 3, "/t/") == 0 && p.find('/', 3) == std::string::npos)
 				sh.push_back({{"path", "/shadow/" + p.substr(3)}, {"kind", "dir"}});
 		}
-		for (auto &e : sh)
+		for (auto &e : sh) {
 			plan["world"]["fs"].push_back(e);
+			plan["world"]["fs"].push_back(fs_file("/alt/" + e["path"].get<std::string>().substr(8), "= = = the wrong file\n"));
+		}
 		plan["world"]["fs"].push_back({{"path", "/shadow"}, {"kind", "dir"}});
+		plan["world"]["fs"].push_back({{"path", "/alt"}, {"kind", "dir"}});
 	}
 	// a third of the worlds keep some files elsewhere and reach them through symbolic links in /t
 	if (r.chance(1, 3)) {
